@@ -1,6 +1,6 @@
 (* C25 — standard types are applied completely and consistently (statements only; proofs in C25/Proofs.v) *)
 From Coq Require Import ZArith QArith List Bool String.
-From PPV Require Import Base.QN C24.Model C24.Proofs C25.Model C25.Proofs.
+From PPV Require Import Base.QN C24.Model C24.Proofs C25.Model C25.Proofs C25.Proofs2.
 Import ListNotations.
 Open Scope string_scope.
 
@@ -94,3 +94,97 @@ Theorem C25_not_copied_params :
   ["vk0_hv_percent"; "vk0_mv_percent"; "vk0_lv_percent"; "vkr0_hv_percent"; "vkr0_mv_percent"; "vkr0_lv_percent"; "vector_group"].
 Proof. split; reflexivity. Qed.
 Print Assumptions C25_not_copied_params.
+
+(* ====================================================================== rename_std_type incl. the element table
+   rename_net l (Some t) a b = (library, table, exception) after rename_std_type on a kind with element table t;
+   resolve l r = the type data the row's std_type names in library l.  load_std_type o rename: every row keeps its other
+   cells, refers to the same type data as before (rows of the renamed type now carry the new name and load_std_type of
+   it returns the old data unchanged), and no row names the old type any more. *)
+Theorem C25_rename_follows_in_table : forall l t a b l', rename_std l a b = Ok l' ->
+  exists t', rename_net l (Some t) a b = (l', Some t', None) /\ List.length t' = List.length t /\
+    forall i r, nth_error t i = Some r -> exists r', nth_error t' i = Some r' /\
+      (forall c, String.eqb "std_type" c = false -> rowget r' c = rowget r c) /\
+      (row_type r <> VS b -> resolve l' r' = resolve l r) /\
+      (row_type r = VS a -> exists d, load_std l a = Ok d /\ row_type r' = VS b /\ load_std l' b = Ok d) /\
+      row_type r' <> VS a.
+Proof. exact rename_follows. Qed.
+Print Assumptions C25_rename_follows_in_table.
+Example C25_rename_follows_nonvacuous :
+  rename_net [("A", [("r_ohm_per_km", q 1 8)])] (Some [[("std_type", VS "A"); ("length_km", N 2)]; [("std_type", VNaN)]]) "A" "B" =
+  ([("B", [("r_ohm_per_km", q 1 8)])], Some [[("std_type", VS "B"); ("std_type", VS "A"); ("length_km", N 2)]; [("std_type", VNaN)]], None).
+Proof. exact rename_follows_nonvacuous. Qed.
+(* if every std_type cell of the table named a type of the library (or none), the same holds afterwards *)
+Theorem C25_rename_keeps_references : forall l t a b l' t',
+  rename_net l (Some t) a b = (l', Some t', None) ->
+  (forall r, In r t -> resolve l r <> None \/ (forall s, row_type r <> VS s)) ->
+  (forall r', In r' t' -> resolve l' r' <> None \/ (forall s, row_type r' <> VS s)).
+Proof. exact rename_keeps_references. Qed.
+Print Assumptions C25_rename_keeps_references.
+(* the call is all-or-nothing for every kind — with an element table or without (fuse library) — as it is in /repo after
+   "fix: rename_std_type no longer raises KeyError for libraries without an element table" *)
+Theorem C25_rename_atomic : forall l tab a b,
+  let '(l', tab', e) := rename_net l tab a b in
+  (e = None <-> exists l1, rename_std l a b = Ok l1) /\ (e <> None -> l' = l /\ tab' = tab).
+Proof. exact rename_atomic. Qed.
+Print Assumptions C25_rename_atomic.
+(* the rule before the repair (rename_net_gen true): all-or-nothing only for kinds with a table (G25r); for the fuse library it
+   renamed the type and then raised KeyError (regression witness) *)
+Theorem C25_rename_atomic_old_partial : forall raises l tab a b, G25r tab = true ->
+  let '(l', tab', e) := rename_net_gen raises l tab a b in
+  (e = None <-> exists l1, rename_std l a b = Ok l1) /\ (e <> None -> l' = l /\ tab' = tab).
+Proof. exact rename_atomic_partial. Qed.
+Print Assumptions C25_rename_atomic_old_partial.
+Theorem C25_rename_atomic_old_refuted : exists l a b, let '(l', tab', e) := rename_net_gen true l None a b in e <> None /\ l' <> l.
+Proof. exact rename_atomic_old_refuted. Qed.
+Print Assumptions C25_rename_atomic_old_refuted.
+
+(* ====================================================================== change_std_type: exact write set and stale columns
+   written_cols cols ty = std_type + the existing columns the type defines; fresh_val ds ty c = what create_<kind>(std_type=ty)
+   writes into column c (C24 descriptor ds); type_col ds c = column c is filled from type parameter c;
+   stale_cols ds cols ty r = the type columns of the table which the new type does not define and whose old value differs
+   from the fresh element's. *)
+Theorem C25_change_write_set : forall cols l name r r' ty, change_std cols l name r = Ok r' -> lget l name = Some ty ->
+  rowget r' "std_type" = VS name /\
+  (forall c, In c (written_cols cols ty) -> c <> "std_type" -> rowget r' c = valof (lookup ty c)) /\
+  (forall c, ~ In c (written_cols cols ty) -> rowget r' c = rowget r c).
+Proof. exact change_write_set. Qed.
+Print Assumptions C25_change_write_set.
+(* the recorded finding, exactly: a type column of the changed row differs from the fresh element iff it is in stale_cols *)
+Theorem C25_change_stale_exact : forall ds cols l name r r' ty c, change_std cols l name r = Ok r' -> lget l name = Some ty ->
+  type_col ds c = true -> G25_col cols c = true -> String.eqb "std_type" c = false ->
+  (rowget r' c = fresh_val ds ty c <-> ~ In c (stale_cols ds cols ty r)).
+Proof. exact stale_exact. Qed.
+Print Assumptions C25_change_stale_exact.
+Theorem C25_change_stale_keeps_old : forall ds cols l name r r' ty c, change_std cols l name r = Ok r' -> lget l name = Some ty ->
+  In c (stale_cols ds cols ty r) -> rowget r' c = rowget r c /\ rowget r' c <> fresh_val ds ty c /\ lookup ty c = None.
+Proof. exact stale_keeps_old. Qed.
+Print Assumptions C25_change_stale_keeps_old.
+Theorem C25_change_eq_fresh_nostale_partial : forall ds cols l name r r' ty, change_std cols l name r = Ok r' -> lget l name = Some ty ->
+  G25_nostale ds cols ty r = true ->
+  forall c, type_col ds c = true -> G25_col cols c = true -> String.eqb "std_type" c = false -> rowget r' c = fresh_val ds ty c.
+Proof. exact nostale_partial. Qed.
+Print Assumptions C25_change_eq_fresh_nostale_partial.
+Theorem C25_change_stale_refuted : exists r', change_std w_cols [("NEW", w_ty)] "NEW" w_row = Ok r' /\
+  stale_cols d_trafo_s w_cols w_ty w_row = ["tap_side"; "tap_step_percent"; "shift_degree"] /\
+  rowget r' "tap_side" = VS "hv" /\ fresh_val d_trafo_s w_ty "tap_side" = VNaN /\
+  rowget r' "shift_degree" = N 150 /\ fresh_val d_trafo_s w_ty "shift_degree" = N 0.
+Proof. exact stale_refuted. Qed.
+Print Assumptions C25_change_stale_refuted.
+Example C25_change_nostale_nonvacuous :
+  G25_nostale d_trafo_s w_cols (w_ty ++ [("tap_side", VS "lv"); ("tap_step_percent", q 5 2); ("shift_degree", N 0)])%list w_row = true /\
+  type_col d_trafo_s "tap_side" = true.
+Proof. exact nostale_nonvacuous. Qed.
+(* the columns that can go stale, per kind (computed from the C24 descriptors of create_line / create_transformer / ...3w) *)
+Theorem C25_type_columns :
+  filter (type_col d_line_s) (map fst (d_cols d_line_s)) =
+    ["r_ohm_per_km"; "x_ohm_per_km"; "c_nf_per_km"; "max_i_ka"; "g_us_per_km"; "type"; "r0_ohm_per_km"; "x0_ohm_per_km"; "c0_nf_per_km"; "alpha"] /\
+  filter (type_col d_trafo_s) (map fst (d_cols d_trafo_s)) =
+    (trafo_req ++ ["vk0_percent"; "vkr0_percent"; "mag0_percent"; "mag0_rx"; "si0_hv_partial"; "vector_group"; "shift_degree";
+                  "tap_neutral"; "tap_max"; "tap_min"; "tap_side"; "tap_step_percent"; "tap_step_degree";
+                  "tap2_neutral"; "tap2_max"; "tap2_min"; "tap2_side"; "tap2_step_percent"; "tap2_step_degree"; "tap2_changer_type";
+                  "tap_changer_type"])%list /\
+  filter (type_col d_t3_s) (map fst (d_cols d_t3_s)) =
+    (t3_req ++ ["shift_mv_degree"; "shift_lv_degree"; "tap_neutral"; "tap_max"; "tap_min"; "tap_side"; "tap_step_percent"; "tap_step_degree";
+               "tap_changer_type"])%list.
+Proof. exact (conj type_cols_line (conj type_cols_trafo type_cols_t3)). Qed.
+Print Assumptions C25_type_columns.
